@@ -6,7 +6,7 @@ Vocabulary (all executable definitions; the lane `enc` runs exactly these):
   * `Codec.decodeAll c bytes`                      whole-buffer decode with U+FFFD replacement (the spec)
   * `Policy c`                                     where the decoder reports `OutputFull` (any behaviour)
   * `textNode e pol cap start parts`               `feed_text` on each piece, then `flush_pending`
-  * `chunksText`, `oneLastAtEnd`, `rangesOrdered`, `rangesContiguous`        Spec/Enc.lean
+  * `chunksText`, `oneLastAtEnd`, `rangesContiguous`, `rangesOrdered`        Spec/Enc.lean
 -/
 import LolHtml.Lemmas.EncFeed
 import LolHtml.Lemmas.EncUtf8
@@ -21,57 +21,67 @@ namespace LolHtml.Enc
 
 /-- **C13_decoder.** For every lawful encoding, every buffer length `cap ≥ 4`, every `OutputFull`
 behaviour `pol` of the decoder, every source offset and every split of a text node's bytes into
-`feed_text` calls (empty pieces included) followed by `flush_pending`:
+consecutive `feed_text` calls (each span starting where the previous one ended; empty pieces included)
+followed by `flush_pending`:
 the model never runs out of fuel; the concatenation of the strings the handlers read is the
 whole-buffer decode of the concatenated bytes; exactly one chunk is `last_in_text_node`, it is the
-final one and its range ends at the end of the node; chunk source ranges are well-formed, in order,
-non-overlapping and inside `[start, start+len]`. -/
+final one and its range ends at the end of the node; chunk source ranges are contiguous and cover
+exactly `[start, start+len)`. -/
 theorem C13_decoder (e : Encoding) (EL : e.Lawful) (pol : Policy e.codec) (cap : Nat) (hcap : 4 ≤ cap)
     (start : Nat) (parts : List Bytes) (hne : parts ≠ []) :
     ∃ cs, textNode e pol cap start parts = some cs ∧
       chunksText cs = e.codec.decodeAll parts.flatten ∧
       oneLastAtEnd cs (start + parts.flatten.length) ∧
-      rangesOrdered start cs (start + parts.flatten.length) :=
+      rangesContiguous start cs (start + parts.flatten.length) :=
   textNodeWith_ok pol EL cap hcap true start parts hne
 
-/-- The full wish of C13/C14 about ranges — contiguous and covering `[start, start+len)` — as a
-statement.  It is FALSE for the code as it is (see `C13_ranges_counterexample`); `C13_decoder` proves
-the part that holds (`rangesOrdered`). -/
+/-- The C13/C14 statement about ranges on its own: whatever a text node delivers, its chunk ranges are
+contiguous and cover `[start, start+len)` (true since /repo commit 94474aa; before it the bytes a
+multi-byte character left in the streaming decoder at the end of a `feed_text` belonged to no chunk). -/
 def C13_ranges_statement : Prop :=
   ∀ (e : Encoding), e.Lawful → ∀ (pol : Policy e.codec) (cap : Nat), 4 ≤ cap →
     ∀ (start : Nat) (parts : List Bytes), parts ≠ [] →
       ∀ cs, textNode e pol cap start parts = some cs →
         rangesContiguous start cs (start + parts.flatten.length)
 
-/-- Witness: UTF-8, `€` = E2 82 AC fed as `[E2]`, `[82 AC]` (a write boundary inside the character).
-The handler sees `"€"` with source range `1..3`: byte 0 belongs to no chunk. -/
-theorem C13_ranges_counterexample :
-    textNode utf8 (Policy.greedy _) 1024 0 [[0xE2], [0x82, 0xAC]]
-      = some [⟨[Char.ofNat 0x20AC], false, 1, 3⟩, ⟨[], true, 3, 3⟩]
-    ∧ ¬ rangesContiguous 0 [⟨[Char.ofNat 0x20AC], false, 1, 3⟩, ⟨[], true, 3, 3⟩] 3 := by
-  constructor
-  · decide +kernel
-  · simp [rangesContiguous]
+theorem C13_ranges : C13_ranges_statement := by
+  intro e EL pol cap hcap start parts hne cs h
+  obtain ⟨cs', h', _, _, r⟩ := C13_decoder e EL pol cap hcap start parts hne
+  rw [h] at h'
+  cases h'
+  exact r
 
-theorem C13_ranges_statement_false : ¬ C13_ranges_statement := by
-  intro h
-  have := h utf8 utf8_lawful (Policy.greedy _) 1024 (by omega) 0 [[0xE2], [0x82, 0xAC]] (by simp)
-    _ C13_ranges_counterexample.1
-  exact C13_ranges_counterexample.2 this
+/-- in particular they are ordered and pairwise non-overlapping -/
+theorem C13_ranges_ordered (e : Encoding) (EL : e.Lawful) (pol : Policy e.codec) (cap : Nat)
+    (hcap : 4 ≤ cap) (start : Nat) (parts : List Bytes) (hne : parts ≠ []) (cs : List Chunk)
+    (h : textNode e pol cap start parts = some cs) :
+    rangesOrdered start cs (start + parts.flatten.length) :=
+  rangesContiguous_ordered (C13_ranges e EL pol cap hcap start parts hne cs h)
+
+/-- The former counterexample, now covered: UTF-8, `€` = E2 82 AC fed as `[E2]`, `[82 AC]` (a write
+boundary inside the character): the chunk `"€"` has source range `0..3`. -/
+example : textNode utf8 (Policy.greedy _) 1024 0 [[0xE2], [0x82, 0xAC]]
+    = some [⟨[Char.ofNat 0x20AC], false, 0, 3⟩, ⟨[], true, 3, 3⟩] := by decide +kernel
+
+/-- When the same decoder call also wrote something, the held-back bytes are inside that chunk's range:
+`a E2 | 82 AC` → `"a"` at 5..7, `"€"` at 7..9 (contiguous; the cut between chunks is the write boundary). -/
+example : textNode utf8 (Policy.greedy _) 1024 5 [[0x61, 0xE2], [0x82, 0xAC]]
+    = some [⟨[Char.ofNat 0x61], false, 5, 7⟩, ⟨[Char.ofNat 0x20AC], false, 7, 9⟩, ⟨[], true, 9, 9⟩] := by
+  decide +kernel
 
 /-- Non-vacuity: the hypotheses hold for UTF-8, windows-1252 and the toy two-byte code, with both
 extreme policies and a 4-byte buffer, on an input with a split multi-byte character, a malformed
 byte and a truncated tail. -/
 example : ∃ cs, textNode utf8 (Policy.lazy _) 4 7 [[0x61, 0xE2], [], [0x82, 0xAC, 0xFF, 0xC3]] = some cs ∧
     chunksText cs = utf8Codec.decodeAll [0x61, 0xE2, 0x82, 0xAC, 0xFF, 0xC3] ∧
-    oneLastAtEnd cs (7 + 6) ∧ rangesOrdered 7 cs (7 + 6) :=
+    oneLastAtEnd cs (7 + 6) ∧ rangesContiguous 7 cs (7 + 6) :=
   C13_decoder utf8 utf8_lawful (Policy.lazy _) 4 (by omega) 7 _ (by simp)
 
 example : utf8Codec.decodeAll [0x61, 0xE2, 0x82, 0xAC, 0xFF, 0xC3]
     = [Char.ofNat 0x61, Char.ofNat 0x20AC, Char.ofNat 0xFFFD, Char.ofNat 0xFFFD] := by decide +kernel
 
 example : ∃ cs, textNode toy2Enc (Policy.greedy _) 5 0 [[0x81], [0x41, 0x9F]] = some cs ∧
-    chunksText cs = toy2.decodeAll [0x81, 0x41, 0x9F] ∧ oneLastAtEnd cs 3 ∧ rangesOrdered 0 cs 3 :=
+    chunksText cs = toy2.decodeAll [0x81, 0x41, 0x9F] ∧ oneLastAtEnd cs 3 ∧ rangesContiguous 0 cs 3 :=
   C13_decoder toy2Enc toy2Enc_lawful (Policy.greedy _) 5 (by omega) 0 _ (by simp)
 
 example : windows1252.Lawful := windows1252_lawful
@@ -95,13 +105,13 @@ theorem C13_fastpath (e : Encoding) (EL : e.Lawful) (pol pol' : Policy e.codec) 
 /-- Per call: from the same decoder state, one `feed_text` call with and without the fast path
 delivers text that differs only in how it is cut: text delivered ++ text still owed is the same. -/
 theorem C13_fastpath_call (e : Encoding) (EL : e.Lawful) (pol : Policy e.codec) (cap : Nat)
-    (hcap : 4 ≤ cap) (td : TD e.codec) (start : Nat) (raw more : Bytes) :
+    (hcap : 4 ≤ cap) (td : TD e.codec) (start : Nat) (raw more : Bytes) (hup : td.unrep start ≤ start) :
     ∃ td1 cs1 td2 cs2,
       feedTextWith true e pol cap td start raw false = some (td1, cs1) ∧
       feedTextWith false e pol cap td start raw false = some (td2, cs2) ∧
       chunksText cs1 ++ e.codec.tail td1.cur more = chunksText cs2 ++ e.codec.tail td2.cur more := by
-  obtain ⟨td1, cs1, h1, ok1⟩ := feedTextWith_ok pol EL cap hcap true td start raw false more (by simp)
-  obtain ⟨td2, cs2, h2, ok2⟩ := feedTextWith_ok pol EL cap hcap false td start raw false more (by simp)
+  obtain ⟨td1, cs1, h1, ok1⟩ := feedTextWith_ok pol EL cap hcap true td start raw false more (by simp) hup
+  obtain ⟨td2, cs2, h2, ok2⟩ := feedTextWith_ok pol EL cap hcap false td start raw false more (by simp) hup
   refine ⟨td1, cs1, td2, cs2, h1, h2, ?_⟩
   have a := ok1.text
   have b := ok2.text
